@@ -1,3 +1,4 @@
+import Slock.Gen.Kernels
 /-
 M-AOF: the append-only log of server/aof.go — file framing, the READER exactly as `AofFile.Open/ReadHeader/ReadLock/
 ReadLockData` and `Aof.LoadAofFile/LoadAofFiles` behave on short reads (Go's `bufio.Reader.Read` included), the WRITER's
@@ -301,6 +302,69 @@ def writeSizes (cfg : Nat) (recs : List Rec) : List (Nat × Nat) :=
     (if acc.1.getLast? = some p then acc.1 else acc.1 ++ [p], img)
   ((groups ++ [w.flush.1]).foldl step ([(12, 0)], (headerBytes, []))).1
 
+/-! ## The two deadline ↔ remaining-lifetime conversions (C07, arithmetic part)
+
+Times are seconds (`int64` in Go; `Int` here). `uint16(x)` of a non-negative `int64` is `x mod 65536`. -/
+
+def u16 (x : Int) : Nat := (x % 65536).toNat
+
+/-- lock.go `AddLock` / `GetOrNewLock`: deadline of a hold granted at `start`; `none` = unlimited (0x7fff…ffff). -/
+def engineDeadline (ef e : Nat) (start : Int) : Option Int :=
+  if ef &&& EXPRIED_FLAG_UNLIMITED_EXPRIED_TIME ≠ 0 then none
+  else if ef &&& EXPRIED_FLAG_MILLISECOND_TIME = 0 then
+    if ef &&& EXPRIED_FLAG_MINUTE_TIME ≠ 0 then some (start + (e : Int) * 60 + 1) else some (start + e + 1)
+  else some (start + (e / 1000 : Nat) + 1)
+
+/-- `AofChannel.Push`: the record's command time = min(current second, deadline). `d = none`: unlimited. -/
+def pushCommandTime (cur : Int) (d : Option Int) : Int :=
+  match d with
+  | none => cur
+  | some d => if d > cur then cur else d
+
+/-- `AofChannel.Push`: age at write, saturating at 0xffff (a negative difference wraps in uint64, hence saturates too). -/
+def pushAge (ct start : Int) : Nat :=
+  let a := ct - start
+  if a < 0 ∨ a ≥ 0xffff then 0xffff else a.toNat
+
+/-- `Aof.GetAofLockExpriedTime`: the remaining lifetime stored in the record (saturating at 0xffff). -/
+def writeRemaining (ef e : Nat) (d : Option Int) (ct : Int) : Nat :=
+  if ef &&& EXPRIED_FLAG_UNLIMITED_EXPRIED_TIME ≠ 0 then e
+  else if ef &&& EXPRIED_FLAG_MILLISECOND_TIME ≠ 0 then e
+  else
+    let dl := d.getD 0x7fffffffffffffff
+    let secs := dl - ct
+    if ef &&& EXPRIED_FLAG_MINUTE_TIME ≠ 0 then
+      if secs ≥ 60 ∧ secs % 60 = 0 then u16 (secs / 60)
+      else if secs > 0 then (if secs / 60 ≥ 0xffff then 0xffff else (u16 (secs / 60) + 1) % 65536)
+      else 0
+    else if dl > 0 then
+      if secs > 0 then (if secs > 0xffff then 0xffff else u16 secs) else 0
+    else e
+
+/-- `Aof.GetLockCommandExpriedTime`: the `Expried` of the command replayed at `now`. -/
+def loadRemaining (ef e : Nat) (ct now : Int) : Nat :=
+  if ef &&& EXPRIED_FLAG_UNLIMITED_EXPRIED_TIME ≠ 0 then e
+  else if ef &&& EXPRIED_FLAG_MILLISECOND_TIME ≠ 0 then e
+  else if ef &&& EXPRIED_FLAG_MINUTE_TIME ≠ 0 then
+    let el := now - ct
+    if el ≥ 0 then
+      let mins := if el < 60 ∨ el % 60 ≠ 0 then el / 60 + 1 else el / 60
+      if e > u16 mins then e - u16 mins else 0
+    else e
+  else if e > 0 then
+    let el := now - ct
+    if el ≥ 0 then (if e > u16 el then e - u16 el else 0) else e
+  else e
+
+/-- Journal a hold (unit flags `ef`, `Expried = e`, granted at `start`) at second `cur`, reload at `now`:
+`(commandTime, age, stored, skipped, restoredExpried)`. -/
+def journalReload (ef e : Nat) (start cur now : Int) : Int × Nat × Nat × Bool × Nat :=
+  let d := engineDeadline ef e start
+  let ct := pushCommandTime cur d
+  let rem := writeRemaining ef e d ct
+  let sk := skippedAt ef rem ct.toNat now
+  (ct, pushAge ct start, rem, sk, if sk then 0 else loadRemaining ef rem ct now)
+
 /-! ## Directory, `FindAofFiles`, start-up recovery, compaction
 
 File names are kept in parsed form: `parseName` is the name grammar of `FindAofFiles` (`rewrite.aof`, `append.aof.<decimal>`,
@@ -433,8 +497,74 @@ def markRewritten (r : Rec) : Rec :=
 def tmpLog : FName := ⟨.rewriteTmp, false⟩
 def tmpDat : FName := ⟨.rewriteTmp, true⟩
 
-/-- What the compaction keeps: the records of the inputs (as a start-up at `now` would load them) for which `keep` holds —
-`keep` abstracts `LockDB.HasLock` (the hold this record describes is still there, with equal terms and value). -/
+/-! ### The keep-rule of the compaction: `LockDB.HasLock` as the callback of `loadRewriteAofFiles` calls it -/
+
+def commandType (b : Bytes) : Nat := byteAt b 2
+def recFlag (b : Bytes) : Nat := byteAt b 19
+def recDb (b : Bytes) : Nat := byteAt b 20
+def recLockId (b : Bytes) : Bytes := (b.drop 21).take 16
+def recKey (b : Bytes) : Bytes := (b.drop 37).take 16
+def recCount (b : Bytes) : Nat := le16 b 61
+def recRcount (b : Bytes) : Nat := byteAt b 63
+
+/-- What `HasLock` looks at in a live hold: LockId, deadline (`none` = unlimited, 0x7fff…ffff), Count, Rcount and the
+timeout flags of its current command. -/
+structure HoldView where
+  lockId : Bytes
+  expT : Option Int
+  count : Nat
+  rcount : Nat
+  tflag : Nat
+  deriving DecidableEq, Repr
+
+/-- One key with at least one hold (`lockManager.locked > 0`): its current value (`currentData.data`) and its holds. -/
+structure KeyView where
+  db : Nat
+  key : Bytes
+  value : Option Bytes
+  holds : List HoldView
+  deriving DecidableEq, Repr
+
+def maxInt64 : Int := 9223372036854775807
+
+/-- `lockCommand.Expried = GetLockCommandExpriedTime(db, aofLock)` — the REMAINING lifetime at `now`, not the recorded one. -/
+def keepExpried (now : Int) (b : Bytes) : Nat := loadRemaining (expriedFlag b) (expriedTime b) (commandTime b) now
+
+/-- `LockManager.CheckLockedEqual(hold, command)` through the regenerated kernels (the command built by the compaction has
+TimeoutFlag 0). -/
+def lockedEqual (now : Int) (h : HoldView) (b : Bytes) : Bool :=
+  Slock.Gen.K.checkLockedEqual now (h.expT.getD maxInt64) (expriedFlag b) (keepExpried now b)
+    (Slock.Gen.K.checkLockedCountEqual (recCount b) (recRcount b) 0 h.count h.rcount h.tflag)
+
+/-- `LockDB.HasLock(lockCommand, aofLock.data)` (db.go 2913–2966) on the view of the database. -/
+def keepRule (now : Int) (view : List KeyView) (r : Rec) : Bool :=
+  let b := r.buf
+  match view.find? (fun k => k.db = recDb b ∧ k.key = recKey b) with
+  | none => false
+  | some k =>
+    if k.holds.isEmpty then false
+    else
+      let hold := k.holds.find? (fun h => h.lockId = recLockId b)
+      if commandType b = 1 then
+        if keepExpried now b = 0 ∧ expriedFlag b &&& 0x4440 = 0 then
+          decide (k.value = r.data)
+        else if recFlag b &&& 0x02 ≠ 0 then
+          match hold with
+          | none => false
+          | some h =>
+            match r.data with
+            | none => lockedEqual now h b
+            | some d =>
+              if k.value ≠ some d then
+                if expriedFlag b &&& EXPRIED_FLAG_UNLIMITED_EXPRIED_TIME ≠ 0 ∧ keepExpried now b = 0xffff then
+                  ! (decide (h.count = recCount b ∧ h.rcount = recRcount b))
+                else lockedEqual now h b
+              else true
+        else hold.isSome
+      else hold.isSome
+
+/-- What the compaction keeps: the records of the inputs (as `LoadAofFiles` at `now` delivers them: expired ones are already
+gone) for which `keep` holds; each kept record gets the REWRITED bit. -/
 def keptRecords (cfg : Nat) (now : Int) (keep : Rec → Bool) (d : Dir) (inputs : List Base) : List Rec :=
   ((loadFiles cfg now (inputs.map (fileImg d))).1.filter keep).map markRewritten
 
@@ -458,67 +588,96 @@ def compactionSteps (cfg : Nat) (now : Int) (keep : Rec → Bool) (cur : Nat) (d
   | some [] => []
   | some inputs => writeSteps (keptRecords cfg now keep d inputs) ++ clearSteps inputs
 
-/-! ## The two deadline ↔ remaining-lifetime conversions (C07, arithmetic part)
+/-! ## What a journal MEANS: the reference replay `recover`
 
-Times are seconds (`int64` in Go; `Int` here). `uint16(x)` of a non-negative `int64` is `x mod 65536`. -/
+A journal is a list of things that happened; `recover` applies every record, with no per-record expiry test (mirrors
+`vRRecover` of the restart harness, which compares it with the database that wrote the journal and with the database a
+restart builds from it):
+* LOCK record, id not held → new hold, depth 1, the record's terms;
+* LOCK record, id held, update-when-locked flag (0x02) → the record's terms replace the hold's, depth unchanged;
+* LOCK record, id held, no 0x02 → depth + 1, the record's terms;
+* UNLOCK record, Rcount = 0 → the hold is removed (all levels); Rcount > 0 → one level less, removed at the last one;
+* a record with a value frame sets the key's value (an UNLOCK record only if its hold exists); the value goes with the key's
+  last hold. -/
 
-def u16 (x : Int) : Nat := (x % 65536).toNat
+structure JRec where
+  isLock : Bool
+  db : Nat
+  key : Nat
+  id : Nat
+  flag : Nat
+  aofFlag : Nat
+  eflag : Nat
+  stored : Nat
+  ct : Int
+  count : Nat
+  rcount : Nat
+  data : Option Bytes
+  deriving DecidableEq, Repr
 
-/-- lock.go `AddLock` / `GetOrNewLock`: deadline of a hold granted at `start`; `none` = unlimited (0x7fff…ffff). -/
-def engineDeadline (ef e : Nat) (start : Int) : Option Int :=
-  if ef &&& EXPRIED_FLAG_UNLIMITED_EXPRIED_TIME ≠ 0 then none
-  else if ef &&& EXPRIED_FLAG_MILLISECOND_TIME = 0 then
-    if ef &&& EXPRIED_FLAG_MINUTE_TIME ≠ 0 then some (start + (e : Int) * 60 + 1) else some (start + e + 1)
-  else some (start + (e / 1000 : Nat) + 1)
+structure JHold where
+  db : Nat
+  key : Nat
+  id : Nat
+  depth : Nat
+  count : Nat
+  rcount : Nat
+  eflag : Nat               -- unit flags only (0x4440)
+  deadline : Option Int     -- `none` = unlimited
+  deriving DecidableEq, Repr
 
-/-- `AofChannel.Push`: the record's command time = min(current second, deadline). `d = none`: unlimited. -/
-def pushCommandTime (cur : Int) (d : Option Int) : Int :=
-  match d with
-  | none => cur
-  | some d => if d > cur then cur else d
+structure JState where
+  holds : List JHold
+  values : List ((Nat × Nat) × Bytes)
+  deriving DecidableEq, Repr
 
-/-- `AofChannel.Push`: age at write, saturating at 0xffff (a negative difference wraps in uint64, hence saturates too). -/
-def pushAge (ct start : Int) : Nat :=
-  let a := ct - start
-  if a < 0 ∨ a ≥ 0xffff then 0xffff else a.toNat
+def JState.empty : JState := ⟨[], []⟩
 
-/-- `Aof.GetAofLockExpriedTime`: the remaining lifetime stored in the record (saturating at 0xffff). -/
-def writeRemaining (ef e : Nat) (d : Option Int) (ct : Int) : Nat :=
-  if ef &&& EXPRIED_FLAG_UNLIMITED_EXPRIED_TIME ≠ 0 then e
-  else if ef &&& EXPRIED_FLAG_MILLISECOND_TIME ≠ 0 then e
+/-- The deadline a record describes (upper estimate): seconds exact, minutes rounded up by < 60 s, milliseconds command time +
+duration + 1. -/
+def JRec.deadline (r : JRec) : Option Int :=
+  if r.eflag &&& EXPRIED_FLAG_UNLIMITED_EXPRIED_TIME ≠ 0 then none
+  else if r.eflag &&& EXPRIED_FLAG_MILLISECOND_TIME ≠ 0 then some (r.ct + (r.stored / 1000 : Nat) + 1)
+  else if r.eflag &&& EXPRIED_FLAG_MINUTE_TIME ≠ 0 then some (r.ct + (r.stored : Int) * 60)
+  else some (r.ct + r.stored)
+
+def JHold.is (h : JHold) (db key id : Nat) : Bool := h.db == db && h.key == key && h.id == id
+
+def JState.get (st : JState) (db key id : Nat) : Option JHold := st.holds.find? (·.is db key id)
+
+def JRec.terms (r : JRec) (depth : Nat) : JHold :=
+  ⟨r.db, r.key, r.id, depth, r.count, r.rcount, r.eflag &&& 0x4440, r.deadline⟩
+
+def JState.setValue (st : JState) (db key : Nat) (v : Bytes) : JState :=
+  { st with values := st.values.filter (fun p => p.1 ≠ (db, key)) ++ [((db, key), v)] }
+
+/-- Remove the hold; the key's value goes when this was the key's last hold. -/
+def JState.removeHold (st : JState) (db key id : Nat) : JState :=
+  let hs := st.holds.filter (fun h => !h.is db key id)
+  { holds := hs,
+    values := if hs.any (fun h => h.db == db && h.key == key) then st.values else st.values.filter (fun p => p.1 ≠ (db, key)) }
+
+def recoverStep (st : JState) (r : JRec) : JState :=
+  if r.isLock then
+    let st1 : JState :=
+      match st.get r.db r.key r.id with
+      | none => { st with holds := st.holds ++ [r.terms 1] }
+      | some h =>
+        let d := if r.flag &&& 0x02 ≠ 0 then h.depth else h.depth + 1
+        { st with holds := st.holds.map (fun x => if x.is r.db r.key r.id then r.terms d else x) }
+    match r.data with
+    | some v => st1.setValue r.db r.key v
+    | none => st1
   else
-    let dl := d.getD 0x7fffffffffffffff
-    let secs := dl - ct
-    if ef &&& EXPRIED_FLAG_MINUTE_TIME ≠ 0 then
-      if secs ≥ 60 ∧ secs % 60 = 0 then u16 (secs / 60)
-      else if secs > 0 then (if secs / 60 ≥ 0xffff then 0xffff else (u16 (secs / 60) + 1) % 65536)
-      else 0
-    else if dl > 0 then
-      if secs > 0 then (if secs > 0xffff then 0xffff else u16 secs) else 0
-    else e
+    match st.get r.db r.key r.id with
+    | none => st
+    | some h =>
+      let st1 := match r.data with
+        | some v => st.setValue r.db r.key v
+        | none => st
+      if r.rcount = 0 ∨ h.depth ≤ 1 then st1.removeHold r.db r.key r.id
+      else { st1 with holds := st1.holds.map (fun x => if x.is r.db r.key r.id then { x with depth := x.depth - 1 } else x) }
 
-/-- `Aof.GetLockCommandExpriedTime`: the `Expried` of the command replayed at `now`. -/
-def loadRemaining (ef e : Nat) (ct now : Int) : Nat :=
-  if ef &&& EXPRIED_FLAG_UNLIMITED_EXPRIED_TIME ≠ 0 then e
-  else if ef &&& EXPRIED_FLAG_MILLISECOND_TIME ≠ 0 then e
-  else if ef &&& EXPRIED_FLAG_MINUTE_TIME ≠ 0 then
-    let el := now - ct
-    if el ≥ 0 then
-      let mins := if el < 60 ∨ el % 60 ≠ 0 then el / 60 + 1 else el / 60
-      if e > u16 mins then e - u16 mins else 0
-    else e
-  else if e > 0 then
-    let el := now - ct
-    if el ≥ 0 then (if e > u16 el then e - u16 el else 0) else e
-  else e
-
-/-- Journal a hold (unit flags `ef`, `Expried = e`, granted at `start`) at second `cur`, reload at `now`:
-`(commandTime, age, stored, skipped, restoredExpried)`. -/
-def journalReload (ef e : Nat) (start cur now : Int) : Int × Nat × Nat × Bool × Nat :=
-  let d := engineDeadline ef e start
-  let ct := pushCommandTime cur d
-  let rem := writeRemaining ef e d ct
-  let sk := skippedAt ef rem ct.toNat now
-  (ct, pushAge ct start, rem, sk, if sk then 0 else loadRemaining ef rem ct now)
+def recover (rs : List JRec) : JState := rs.foldl recoverStep JState.empty
 
 end Slock.Aof
